@@ -134,8 +134,8 @@ def gen_events(ctx):
                     res = project_supercell(sc, ucell, ac, S, abs(det3(S)))
                 except Exception as e:
                     res = dict(status="failed", err=type(e).__name__)
-                events.append(dict(cell=dict(D=ac["D"], num=ac["num"]), S=S, style=style,
-                                   result={k: v for k, v in res.items() if k != "err"}))
+                events.append(dict(ucell=dict(D=ac["D"], num=ac["num"]), smat=S, sty=style,
+                                   res={k: v for k, v in res.items() if k != "err"}))
                 ctx.count((ac["name"], tuple(map(tuple, S)), style))
     return Ss, snf_table, events
 
@@ -267,7 +267,7 @@ def gen_prim_events(ctx):
                                exact=bool(presid < 1e-6))
                 except Exception as e:  # phonopy refuses the input
                     res = dict(status="error")
-                events.append(dict(inp=inp, result=res))
+                events.append(dict(pin=inp, res=res))
                 ctx.count(("prim", ac["name"], tuple(map(tuple, S)), str(pm)))
     return events
 
@@ -301,13 +301,13 @@ INVARIANT ConformsPMaps
 def run_primitive(ctx):
     from harness import tlc as tlcmod
     events = gen_prim_events(ctx)
-    nb = sum(1 for e in events if e["result"]["status"] == "built")
+    nb = sum(1 for e in events if e["res"]["status"] == "built")
     ctx.extra["primitive_events"] = len(events)
     ctx.extra["primitive_built"] = nb
     ctx.extra["primitive_rejected"] = len(events) - nb
     ctx.traces += len(events)
-    ctx.sample(dict(kind="primitive", inp={k: v for k, v in events[1]["inp"].items() if k != "atoms"},
-                    natoms=len(events[1]["inp"]["atoms"]), result=events[1]["result"]))
+    ctx.sample(dict(kind="primitive", inp={k: v for k, v in events[1]["pin"].items() if k != "atoms"},
+                    natoms=len(events[1]["pin"]["atoms"]), result=events[1]["res"]))
     mc = MC_PRIM % ",\n".join(to_tla(e) for e in events)
     res = ctx.tlc("MC_PrimitiveTrace", cfg_text=CFG_PRIM, extra_files={"MC_PrimitiveTrace.tla": mc},
                   requirement=False, extra_args=("-continue",), keep=True)
@@ -316,9 +316,9 @@ def run_primitive(ctx):
     for n, tr in res.violations:
         if n not in witness and tr:
             e = tr[-1][1].get("ev", {})
-            inp = e.get("inp", {})
+            inp = e.get("pin", {})
             witness[n] = dict(S=inp.get("S"), Pn=inp.get("Pn"), Pd=inp.get("Pd"), natoms=len(inp.get("atoms", [])),
-                              status=e.get("result", {}).get("status"))
+                              status=e.get("res", {}).get("status"))
     ctx.extra["primitive_violated_invariants"] = violated
     req = [v for v in violated if v.startswith("Impl") or v.startswith("Inv")]
     for v in req:
@@ -430,7 +430,7 @@ def run_supercell(ctx):
     table = {k: (v if "err" not in v else bad_snf) for k, v in snf_table.items()}
     ident = dict(P=bad_snf["P"], Q=bad_snf["P"], D=bad_snf["P"])
     for e in events:
-        e["snf"] = table.get(tuple(map(tuple, e["S"])), ident)
+        e["snf"] = table.get(tuple(map(tuple, e["smat"])), ident)
     mc = MC_TEMPLATE % ",\n".join(to_tla(e) for e in events)
     res = ctx.tlc("MC_SupercellTrace", cfg_text=CFG_TRACE, extra_files={"MC_SupercellTrace.tla": mc},
                   requirement=False, extra_args=("-continue",), keep=True)
@@ -442,7 +442,7 @@ def run_supercell(ctx):
         if n not in witness and tr:
             st = tr[-1][1]
             e = st.get("ev", {})
-            witness[n] = dict(S=e.get("S"), style=e.get("style"), cell=e.get("cell"))
+            witness[n] = dict(S=e.get("smat"), style=e.get("sty"), cell=e.get("ucell"))
     ctx.traces += len(events)
     ctx.extra["events"] = len(events)
     ctx.extra["matrices"] = len(Ss)
